@@ -140,6 +140,9 @@ pub fn mode_hist(a: &Args) -> i32 {
     let mut journal = Journal::open(a);
     let mut stats = Stats::default();
     let mut sink = Sink::default();
+    if a.u("noprobe", 0) == 1 {
+        crate::hist::NO_PROBE.store(true, std::sync::atomic::Ordering::Relaxed);
+    }
     let mut i = a.u("start", 0);
     while stats.ops < max_ops && i < max_eps {
         let idx = i;
